@@ -53,9 +53,10 @@ fn main() {
                 }
             }
             if id == "C07" {
-                let _ = std::fs::create_dir_all("/verif/replays");
-                let path = "/verif/replays/C07-init-does-not-terminate.json";
-                let _ = std::fs::write(path, "{\"property\": \"C07\", \"part\": \"tables\", \"case\": {\"Leapers\": {\"square\": 0}}, \"message\": \"table initialisation (chess::init) did not finish within 120 s\"}");
+                let dir = format!("{}/replays", tv::framework::verif_root());
+                let _ = std::fs::create_dir_all(&dir);
+                let path = format!("{dir}/C07-init-does-not-terminate.json");
+                let _ = std::fs::write(&path, "{\"property\": \"C07\", \"part\": \"tables\", \"case\": {\"Leapers\": {\"square\": 0}}, \"message\": \"table initialisation (chess::init) did not finish within 120 s\"}");
                 println!("table initialisation did not finish within 120 s");
                 println!("VIOLATION property=C07 replay={path}");
                 std::process::exit(1);
